@@ -270,6 +270,13 @@ def run(ctx):
             ctx.ob("R-INT", "C13.4", lp, f"loop-level call `{src(c.func)}` that can checkpoint runs between iterations (consistent boundary)", exit_vs == {tuple(1 for _ in EFFECTS)}, f"`{src(c)}`", node=c)
     ctx.require(n_sites >= 2, "expected check_state() and update_state() checkpoint sites in the main loop")
     ctx.floor("C13.4", 3)
+
+    # ---- C13.5 the signal-time checkpoint pickles the state as it is -------------------------------------------------
+    # whatever boundary the handler interrupts, the counts and the pool in the checkpoint are those of the live object
+    # only if no __getstate__ swaps an attribute for a different value (shared with C12.1)
+    from .C12 import getstate_value_rule as _gvr
+    _gvr(ctx, prog, "C13.5")
+    ctx.floor("C13.5", 8)
     ctx.assumptions += [
         "a Python-level signal handler runs between bytecodes of the main thread, i.e. at (or inside) statement boundaries; boundaries inside C extensions are not finer than the statement that calls them",
         "the resumed loop restarts at the top of consume_sample (it re-reads live_points[0])",
